@@ -47,4 +47,11 @@ CHECKS = {
              "Trusted: expfmt.TextParser, the harness's representability predicate (legacy Prometheus name rules). Sampling.",
              q={"checks": 3000, "shards": 1, "timeout": 300},
              t={"checks": 30000, "shards": 16, "timeout": 1500}),
+    "C12": P("pure", "TestC12",
+             "fault enumeration: rapid generated store shapes x complete enumeration of fault positions per exporter path; oracle = locks free, no helper goroutine left, follow-up processing completes",
+             "For each generated store shape every failure position of every exporter path is injected in turn (unrepresentable metric/label at each position, failing write k for every k, cancellation before/at each write, NaN for JSON) and after each attempt every metric must be write-lockable, no EmitLabelSets goroutine may remain and follow-up GetDatum/exports must complete.",
+             "Trusted: TryLock polling, goroutine-dump counting, the build-tagged push hook. Store shapes are sampled; positions per shape are complete. The real-socket push path is not driven here.",
+             level="fault_enumeration",
+             q={"checks": 40, "shards": 1, "timeout": 600},
+             t={"checks": 300, "shards": 16, "timeout": 2400}),
 }
